@@ -1068,7 +1068,7 @@ def run(ctx):
                     "harness/realextract.py extraction directives (R -> OCaml float) and the OCaml DFT in harness/props/c03.py, correspondence only",
                     "Model/PropagationModel.v and the Python replicas of loop plumbing (spec_segments, basic_freq_grid, layered_crossings) are hand-written: pinned by AST hash, validated by correspondence"]
     ctx.assumptions += ["theorems are over the real numbers; binary64 rounding is covered by the numeric correspondence and probes only",
-                        "propagate_grid / propagate_linear / propagate_passive are relative to C05's theorems filter_frequencies_length, filter_linear, filter_passive (hypotheses of the statements, discharged by coq/Props/C05.v)",
+                        "propagate_grid / propagate_linear / propagate_passive exist for any filter with C05's three properties (hypotheses) and, hypothesis-free, for C05's concrete model of Signal.filter_frequencies (propagate_grid_linear_passive_concrete, via Proofs/FilterBridge.v); what remains assumed is only that FilterModel.v models the NumPy/SciPy FFT pipeline (C05's correspondence)",
                         "attenuation monotonicity needs the ice temperature within [-100 C, +5 C] at the integration nodes (true down to below 2850 m) and f > 0; f = 0 is probed numerically",
                         "for SpecializedRayTracePath the sign condition on the node weights of the changed-variable integrand is a hypothesis (partial)",
                         "the ray tracers' geometry (directions in one vertical plane, unit length) is C01/C02/C18's; pol_basis assumes it"]
